@@ -118,6 +118,7 @@ def gen_requests(c, schema, plan):
             r = copy.deepcopy(src)
             r["doc"] = mdoc
             r["kind"] = "invalid"
+            r["invalid"] = True  # survives being repeated: validation errors carry field names, not response keys
             r["faults"] = []
             reqs.append(r)
         else:
@@ -146,6 +147,15 @@ def execute(h, req, rs, text):
     )
 
 
+def canon_response(resp):
+    """canonical form for comparison: the order of the entries of `errors` follows resolver completion order,
+    which the scheduler varies on purpose, so errors are compared as a multiset"""
+    j = core.jsonable(resp)
+    if isinstance(j, dict) and isinstance(j.get("errors"), list):
+        j = dict(j, errors=sorted(j["errors"], key=canon))
+    return canon(j)
+
+
 def summarize(rs):
     calls = sorted(canon([list(p), co, nid, core.jsonable(args), ok]) for p, co, nid, args, ok in rs.calls)
     return {"calls": calls, "type_calls": sorted(canon([list(p), a, co, lv]) for p, a, co, lv in rs.type_calls), "unexpected": len(rs.unexpected), "hooks": sorted(map(str, rs.hooks))}
@@ -157,9 +167,9 @@ def solo(h, schema, reqs, texts):
         rs = new_state(schema, req, i)
         h.gate = None
         resp = run_async(execute(h, req, rs, texts[i]))
-        out.append((canon(core.jsonable(resp)), summarize(rs)))
+        out.append((canon_response(resp), summarize(rs)))
         keys = response_keys(req["doc"])
-        for e in (resp.get("errors") or ()) if (isinstance(resp, dict) and req["kind"] != "invalid") else ():
+        for e in (resp.get("errors") or ()) if (isinstance(resp, dict) and not req.get("invalid")) else ():
             pth = e.get("path") if isinstance(e, dict) else None
             if isinstance(pth, list) and pth and pth[0] not in keys:
                 raise Violation({"schema": schema, "requests": reqs}, "request %d run alone reports an error at path %r, which is not a response key of its own document %r (state left by an earlier request?)" % (i, pth, sorted(keys)), tag="foreign_path")
@@ -193,8 +203,8 @@ def check(spec, h, budget, scripts, stats=None):
     def on_result(s, resps, left, script):
         sspec = dict(spec, schedule=list(script))
         for i, resp in enumerate(resps):
-            got = canon(core.jsonable(resp))
-            if reqs[i]["kind"] != "invalid":
+            got = canon_response(resp)
+            if not reqs[i].get("invalid"):
                 keys = response_keys(reqs[i]["doc"])
                 for e in (resp.get("errors") or ()) if isinstance(resp, dict) else ():
                     pth = e.get("path") if isinstance(e, dict) else None
